@@ -279,7 +279,7 @@ def main(argv):
     rep.coverage.update({
         'evaluations': len(cases),
         'distinct_nontrivial': len({vlib.case_hash(strip(c)) for c in cases if nontrivial(c)}),
-        'rule': 'random Top-port histories (30-150 events plus a final drain; banks {1,2,3,16,32} x width {1,2} x depth {1,2,5} x '
+        'rule': 'random Top-port histories (30-150 events plus a final drain; banks 1..32 (all values, weighted towards 1,2,3,5,6,7,12,16,24,31,32); capacities 2^32 or 64 KiB..1 MiB incl. values that are no multiple of the stripe / row / 4 KiB unit, with a top-of-capacity address class; x width {1,2} x depth {1,2,5} x '
                 'stage latency {1,2,3} x row-miss delay {0,2,5,52} x row size {off,2^7,2^8,2^11} x port buffers {1,2,4,16} x '
                 'post-pipeline buffer {1,2,128}); hot-address pool with unaligned and boundary-straddling accesses of 1-64 bytes, '
                 'masked writes, bursts, no-retrieve phases, pairs of row misses to one bank, fair drain tail; one history in five builds a '
@@ -296,6 +296,13 @@ def main(argv):
         'refused_deliveries': sum(1 for c in cases for e in c['events'] if e['e'] == 'd' and e.get('acc') is False),
         'crashed_cases': sum(1 for c in cases if any(e.get('crash') for e in c['events'])),
         'hostile_cases': sum(1 for c in cases if c.get('hostile')),
+        'bank_counts': dict(sorted(collections.Counter(c['cfg']['banks'] for c in cases).items())),
+        'capacity_not_multiple_of_stripe': sum(1 for c in cases if c['cfg']['capacity'] % (c['cfg']['banks'] << c['cfg']['log2ilv'])),
+        'requests_in_last_stripe_of_capacity': sum(1 for c in cases if not c.get('hostile') for e in c['events'] if e['e'] == 'd' and e.get('acc')
+                                                   and e['msg']['addr'] + max(e['msg']['size'], len(e['msg']['data']), 1)
+                                                   > c['cfg']['capacity'] // (c['cfg']['banks'] << c['cfg']['log2ilv']) * (c['cfg']['banks'] << c['cfg']['log2ilv'])),
+        'requests_touching_last_byte_of_capacity': sum(1 for c in cases if not c.get('hostile') for e in c['events'] if e['e'] == 'd' and e.get('acc')
+                                                       and e['msg']['addr'] + max(e['msg']['size'], len(e['msg']['data'])) == c['cfg']['capacity']),
         'twin_builder_cases': sum(1 for c in cases if c['cfg'].get('twin')), 'own_storage_cases': sum(1 for c in cases if c['cfg'].get('ownstorage')),
         'storage_readbacks': sum(1 for c in cases for e in c['events'] if e['e'] == 'st'),
         'model_mismatches': len(mism), 'monitor_failures': len(bad),
